@@ -7,14 +7,11 @@ Model: EdzedModel/Init.lean (`exec` = the synchronous call tree of `init_sblock`
 All statements hold for every configuration `c` (any number of blocks, any scripts, any on_output
 topology incl. cycles, any completion times, any recursion budget).
 
-Not proved here (validated on every run by the correspondence of the call logs and by the oracle):
-the place of `init_async` in a block's call sequence (at most once, after the restore, before
-`init_regular` unless an event forced the synchronous steps); the "sufficient" direction of the order
-independence.
 -/
 import EdzedModel.Init
 import EdzedProofs.Init
 import EdzedProofs.InitOrder
+import EdzedProofs.InitAsyncOrder
 
 namespace Edzed.Init
 
@@ -133,21 +130,46 @@ theorem legacy_wait_init_returns_after_failed_first_pass :
   ⟨{ n := 1, blk := fun _ => { initdef := some (Val.int 1, .direct) }, cblocks := [.raises], fuel := 8 },
    ⟨true, false, true⟩, by unfold View.of; decide, by decide, by decide, by decide⟩
 
-/-- Full statement: per block the calls are a subsequence of restore, init_async, init_regular, initdef
-    (init_async after init_regular only when an event forced the synchronous steps), each at most once.
-    Proved: the part about the three synchronous routines -- for every block the calls of `_restore_state`,
-    `init_regular`, `init_from_value(initdef)` form a sublist of [P, R, D]: each at most once, in this order,
-    whatever events arrive during the initialisation (the `init_steps_completed` protocol). -/
-theorem source_order_partial (c : Cfg) (b : Nat) :
+/-- Per block the calls of `_restore_state` (P), `init_async` (A), `init_regular` (R) and
+    `init_from_value(initdef)` (D) form a sublist of [P, A, R, D] -- each at most once, in the documented order.
+    The one exception, exactly as the code behaves: a block whose step 2 had already been begun when
+    `_init_sblocks_async` collected its tasks (`init_steps_completed` 2 or -2 after `_init_sblocks_sync_1`; only an
+    incoming event, which runs the pending synchronous steps first, does that) and which was still
+    uninitialised gets its `init_async` afterwards: its calls form a sublist of [P, R, D, A], and no synchronous
+    routine follows.  Holds for every topology and whatever events arrive during the initialisation. -/
+theorem source_order (c : Cfg) (b : Nat) :
+    (proj4 b (run c).log).Sublist [.P, .A, .R, .D] ∨
+    ((proj4 b (run c).log).Sublist [.P, .R, .D, .A] ∧
+      ((afterSync1 c).steps b = 2 ∨ (afterSync1 c).steps b = -2)) :=
+  run_order4 c b
+
+/-- every initialisation routine -- `init_async` included -- runs at most once per block -/
+theorem routine_at_most_once (c : Cfg) (b : Nat) (k : SK4) :
+    (proj4 b (run c).log).count k ≤ 1 := by
+  rcases source_order c b with h | ⟨h, _⟩
+  · have h1 := h.count_le k
+    have : List.count k [SK4.P, .A, .R, .D] ≤ 1 := by cases k <;> decide
+    omega
+  · have h1 := h.count_le k
+    have : List.count k [SK4.P, .R, .D, .A] ≤ 1 := by cases k <;> decide
+    omega
+
+/-- the synchronous routines alone: restore, init_regular, initdef in this order, each at most once -/
+theorem sync_source_order (c : Cfg) (b : Nat) :
     (proj b (run c).log).Sublist [.P, .R, .D] :=
   shape_sublist _ _ (run_J c b)
 
-/-- every synchronous routine runs at most once per block (init_async: see the note above) -/
-theorem routine_at_most_once_partial (c : Cfg) (b : Nat) (k : SK) :
-    (proj b (run c).log).count k ≤ 1 := by
-  have h := (source_order_partial c b).count_le k
-  have : List.count k [SK.P, .R, .D] ≤ 1 := by cases k <;> decide
-  omega
+/-- both orders occur: a plain block with all four sources, and a block that an event reached during
+    `_init_sblocks_sync_1` while its `init_regular` raises (swallowed by the sender's restore) -/
+example : ∃ c, proj4 0 (run c).log = [.P, .A, .R, .D] :=
+  ⟨{ n := 1, blk := fun _ => { persist := .raises, async := .fails 5, timeout := 10,
+                               initdef := some (Val.int 1, .direct) }, fuel := 16 }, by decide⟩
+
+example : ∃ c, proj4 1 (run c).log = [.R, .A] ∧ (afterSync1 c).steps 1 = -2 :=
+  ⟨{ n := 2, blk := fun i =>
+      if i = 0 then { persist := .restores (Val.int 1) .direct, dests := [1] }
+      else { regular := .raises, async := .returns (Val.int 9) 5, timeout := 10 },
+     fuel := 32 }, by decide, by decide⟩
 
 /-- the steps reached and the calls made go together: a block that completed both steps has called
     `init_regular` exactly once -/
